@@ -3,6 +3,7 @@
 package main
 
 import (
+	"os"
 	"bufio"
 	"context"
 	"encoding/hex"
@@ -116,6 +117,9 @@ type dRunner struct {
 	locks map[string]olric.LockContext
 	rawTk map[string][2]string // handle -> (dmap, key) for raw tokens
 	rawTv map[string]string    // handle -> token hex
+	// DMap handles are opened once per client and name and reused, the way an application holds on to them
+	// (a handle obtained before a Destroy keeps being used afterwards)
+	handles map[string]olric.DMap
 }
 
 func (r *dRunner) memberFor(c string, ki KeyInfo) (int, error) {
@@ -164,15 +168,34 @@ func (r *dRunner) dmapFor(c string, name string, ki KeyInfo) (olric.DMap, int, e
 		if err != nil {
 			return nil, -1, err
 		}
-		dm, err := cc.NewDMap(name)
+		dm, err := r.handle(fmt.Sprintf("%p/%s", cc, name), func() (olric.DMap, error) { return cc.NewDMap(name) })
 		return dm, -1, err
 	}
 	i, err := r.memberFor(c, ki)
 	if err != nil {
 		return nil, -1, err
 	}
-	dm, err := r.cl.Members[i].Emb.NewDMap(name)
+	emb := r.cl.Members[i].Emb
+	dm, err := r.handle(fmt.Sprintf("%p/%s", emb, name), func() (olric.DMap, error) { return emb.NewDMap(name) })
 	return dm, i, err
+}
+
+func (r *dRunner) handle(key string, open func() (olric.DMap, error)) (olric.DMap, error) {
+	if os.Getenv("VERIF_FRESH_HANDLES") != "" {
+		return open()
+	}
+	if dm, ok := r.handles[key]; ok {
+		return dm, nil
+	}
+	dm, err := open()
+	if err != nil {
+		return nil, err
+	}
+	if r.handles == nil {
+		r.handles = map[string]olric.DMap{}
+	}
+	r.handles[key] = dm
+	return dm, nil
 }
 
 func putOptions(op *dOp) []olric.PutOption {
@@ -268,7 +291,7 @@ func (r *dRunner) runOp(op *dOp) map[string]interface{} {
 	key := string(keyb)
 	val, _ := hex.DecodeString(op.V)
 	var ki KeyInfo
-	if op.D != "" && op.Op != "destroy" && op.Op != "scan" && op.Op != "mdel" && op.Op != "stats" && op.Op != "fragkeys" && op.Op != "cs" {
+	if op.D != "" && op.Op != "destroy" && op.Op != "scan" && op.Op != "iterscan" && op.Op != "mdel" && op.Op != "stats" && op.Op != "fragkeys" && op.Op != "cs" {
 		ki = r.cl.KeyInfo(op.D, key)
 	}
 	israw := strings.HasPrefix(op.C, "raw")
@@ -676,6 +699,8 @@ func (r *dRunner) runOp(op *dOp) map[string]interface{} {
 		sort.Strings(keys)
 		ob["r"] = "ok"
 		ob["keys"] = keys
+	case "iterscan":
+		r.iterScan(op, ob)
 	case "dump":
 		ob["r"] = "ok"
 		ob["copies"] = r.dump(op.D, key)
